@@ -491,7 +491,7 @@ theorem parseLocal_some (s a : Str) (h : parseLocal s = some a) :
 
 /-! ### characters of joined / split strings -/
 
-theorem mem_joinWith (sep : Char) (l : List Str) (c : Char) (h : c ∈ joinWith sep l) :
+theorem lc_mem_joinWith (sep : Char) (l : List Str) (c : Char) (h : c ∈ joinWith sep l) :
     c = sep ∨ ∃ x ∈ l, c ∈ x := by
   induction l with
   | nil => simp [joinWith] at h
@@ -508,7 +508,7 @@ theorem mem_joinWith (sep : Char) (l : List Str) (c : Char) (h : c ∈ joinWith 
           · exact Or.inl h
           · exact Or.inr ⟨x, List.mem_cons_of_mem _ hx, hc⟩
 
-theorem mem_of_mem_joinWith (sep : Char) (l : List Str) (x : Str) (c : Char) (hx : x ∈ l) (hc : c ∈ x) :
+theorem lc_mem_of_mem_joinWith (sep : Char) (l : List Str) (x : Str) (c : Char) (hx : x ∈ l) (hc : c ∈ x) :
     c ∈ joinWith sep l := by
   induction l with
   | nil => cases hx
@@ -523,9 +523,9 @@ theorem mem_of_mem_joinWith (sep : Char) (l : List Str) (x : Str) (c : Char) (hx
       · exact List.mem_append_left _ hc
       · exact List.mem_append_right _ (List.mem_cons_of_mem _ (ih hx))
 
-theorem mem_of_mem_splitOn (sep : Char) (s x : Str) (c : Char) (hx : x ∈ splitOn sep s) (hc : c ∈ x) :
+theorem lc_mem_of_mem_splitOn (sep : Char) (s x : Str) (c : Char) (hx : x ∈ splitOn sep s) (hc : c ∈ x) :
     c ∈ s := by
-  have := mem_of_mem_joinWith sep _ x c hx hc
+  have := lc_mem_of_mem_joinWith sep _ x c hx hc
   rwa [joinWith_splitOn] at this
 
 /-! ### local sources -/
@@ -581,10 +581,10 @@ theorem parseLocal_relocalise (t : Str) (habs : isAbs t = false)
   have hsplit : splitOn '/' (joinWith '/' segs) = segs := splitOn_joinWith '/' segs hne hnoslash
   have hchars : ∀ c ∈ joinWith '/' segs, badLocalChar c = false := by
     intro c hc
-    rcases mem_joinWith '/' segs c hc with rfl | ⟨x, hx, hcx⟩
+    rcases lc_mem_joinWith '/' segs c hc with rfl | ⟨x, hx, hcx⟩
     · decide
     · rcases hmem x hx with h | h
-      · have := mem_of_mem_splitOn '/' t x c h hcx
+      · have := lc_mem_of_mem_splitOn '/' t x c h hcx
         simp only [List.any_eq_false] at hbad
         simpa using hbad c this
       · rw [h] at hcx
@@ -647,5 +647,66 @@ theorem local_start (a : Str) (h : looksLikeLocal a = true ∨ a = dot ∨ a = d
     intro e; rw [e] at h; simp [looksLikeLocal, hasPrefix, List.isPrefixOf] at h
   · decide
   · decide
+
+/-! ## shape of cleaned relative paths -/
+
+theorem lc_joinWith_head (l : List Str) (c : Char) (s' : Str) (r : List Str) (h : l = (c :: s') :: r) :
+    ∃ t, joinWith '/' l = c :: t := by
+  subst h
+  cases r with
+  | nil => exact ⟨s', rfl⟩
+  | cons t r' => exact ⟨s' ++ '/' :: joinWith '/' (t :: r'), rfl⟩
+
+/-- shape of a cleaned relative path: `.` or its non-empty list of cleaned segments joined -/
+theorem pathClean_rel_segs (t : Str) (habs : isAbs t = false) :
+    (cleanSegs false (splitOn '/' t) = [] ∧ pathClean t = dot) ∨
+    (cleanSegs false (splitOn '/' t) ≠ [] ∧
+      pathClean t = joinWith '/' (cleanSegs false (splitOn '/' t)) ∧
+      splitOn '/' (pathClean t) = cleanSegs false (splitOn '/' t) ∧
+      pathClean t ≠ [] ∧ isAbs (pathClean t) = false) := by
+  have hn : pathClean t = (if cleanSegs false (splitOn '/' t) = [] then dot
+      else joinWith '/' (cleanSegs false (splitOn '/' t))) := by
+    unfold pathClean; simp [habs]
+  generalize hsegs : cleanSegs false (splitOn '/' t) = segs at hn
+  by_cases hne : segs = []
+  · left; simp only [hne, if_true] at hn; exact ⟨hne, hn⟩
+  · right
+    simp only [hne, if_false] at hn
+    have hnorm : Normal false (run false [] (splitOn '/' t)) := run_normal false [] _ Normal.nil
+    have hmem : ∀ s ∈ segs, (s ∈ splitOn '/' t ∨ s = dotdot) ∧ s ≠ [] := by
+      intro s hs
+      rw [← hsegs] at hs
+      unfold cleanSegs at hs
+      have hs' := List.mem_reverse.mp hs
+      constructor
+      · rcases run_mem false _ [] s hs' with h | h | h
+        · cases h
+        · exact Or.inl h
+        · exact Or.inr h
+      · rcases normal_mem _ hnorm s hs' with h | h
+        · exact h.1
+        · rw [h]; decide
+    have hnoslash : ∀ s ∈ segs, '/' ∉ s := by
+      intro s hs
+      rcases (hmem s hs).1 with h | h
+      · exact splitOn_noSep '/' t s h
+      · rw [h]; decide
+    refine ⟨hne, hn, ?_, ?_, ?_⟩
+    · rw [hn]; exact splitOn_joinWith '/' segs hne hnoslash
+    all_goals
+      cases segs with
+      | nil => exact absurd rfl hne
+      | cons s r =>
+        have hs := (hmem s (by simp)).2
+        have hsl := hnoslash s (by simp)
+        cases s with
+        | nil => exact absurd rfl hs
+        | cons c s' =>
+          obtain ⟨tl, htl⟩ := lc_joinWith_head _ c s' r rfl
+          rw [hn, htl]
+          first
+            | exact List.cons_ne_nil _ _
+            | (have hc : c ≠ '/' := by intro e; apply hsl; simp [e]
+               simp [isAbs, hc])
 
 end Slug
